@@ -91,7 +91,12 @@ def canon_value(v):
     import numpy
 
     if isinstance(v, numpy.generic):
-        return ("np." + v.dtype.name, v.tobytes().hex())
+        raw = v.tobytes()
+        if v.dtype.kind in "fc" and v.dtype.itemsize in (16, 32) and numpy.finfo(v.dtype).nmant == 63:
+            # x87 extended precision: 10 significant bytes per component, the rest is uninitialised padding
+            half = len(raw) // (2 if v.dtype.kind == "c" else 1)
+            raw = b"".join(raw[i : i + 10] for i in range(0, len(raw), half))
+        return ("np." + v.dtype.name, raw.hex())
     if isinstance(v, bool):
         return ("bool", v)
     if isinstance(v, int):
